@@ -3,6 +3,7 @@ package props
 import (
 	"go/ast"
 	"go/token"
+	"go/types"
 	"strings"
 
 	"pdfverif/internal/core"
@@ -26,9 +27,19 @@ func runC16(c *core.Ctx) {
 		fn := c.Prog.Func(pk, "(*Writer).mergeNodes")
 		g := fn.Graph()
 		info := fn.Info()
-		child := localVar(fn, "childNodes", 0)
-		src := c.Prog.Src(fn.Decl.Body)
-		o.Require(strings.Contains(src, "childNodes:=nodes[a:b]"), "the child slice is not nodes[a:b]")
+		// the child slice: the local defined as nodes[a:b]
+		var child types.Object
+		ast.Inspect(fn.Decl.Body, func(n ast.Node) bool {
+			if as, ok := n.(*ast.AssignStmt); ok && as.Tok == token.DEFINE && len(as.Rhs) == 1 && strings.ReplaceAll(core.ExprStr(as.Rhs[0]), " ", "") == "nodes[a:b]" {
+				child = core.ObjOf(info, as.Lhs[0])
+			}
+			return true
+		})
+		if child == nil {
+			core.Undecided("no local defined as nodes[a:b]")
+		}
+		cn := child.Name()
+		src := strings.ReplaceAll(c.Prog.Src(fn.Decl.Body), cn, "childNodes")
 		var loops []*core.V
 		for _, h := range loopHeads(g) {
 			if h.Cond.Range != nil && core.ObjOf(info, h.Cond.Range.X) == child {
@@ -67,7 +78,7 @@ func runC16(c *core.Ctx) {
 			o.Fail("a child can pass the first loop without getting its /Parent set")
 		}
 		// loop 2: kids[i] = node.ref; pageCount += node.pageCount
-		s2 := c.Prog.Src(loops[1].Cond.Range)
+		s2 := strings.ReplaceAll(c.Prog.Src(loops[1].Cond.Range), cn, "childNodes")
 		o.Require(strings.Contains(s2, "kids[i]=node.ref"), "/Kids is not filled from the children in order")
 		o.Require(strings.Contains(s2, "pageCount+=node.pageCount"), "/Count is not the sum of the children's page counts")
 		o.Require(strings.Contains(src, `kids:=make(pdf.Array,len(childNodes))`), "/Kids has not one slot per child")
